@@ -776,6 +776,25 @@ def c05(tier):
     for j in range(nruns):
         record_mt_and_validate(rep, colsets[j % len(colsets)], 6, 120 if thorough else 60, SEED * 97 + j,
                                label="c05mt%d" % j, reads=1500 if thorough else 500)
+    # reads racing an index growth: 80 keys of one index chunk, the log worker migrates the old generation while the
+    # readers hammer keys that are still indexed by it (the hook sink holds the worker between the collection of a
+    # reindex batch and the publication of its record)
+    inwin = 0
+    for j in range(4 if thorough else 2):
+        label = "c05gr%d" % j
+        record_mt_and_validate(rep, [{"kind": "hash", "uniform": True, "collide": True}, {"kind": "hash"}], 80, 150,
+                               SEED * 89 + j, label=label, reads=3000)
+        open_win = False
+        for e in vcore.read_ndjson(os.path.join(vcore.scratch(), "tracemt_%s.ndjson" % label)):
+            if e.get("e") == "ReindexRecord":
+                open_win = True
+            elif e.get("e") == "EndRecord":
+                open_win = False
+            elif e.get("e") == "GetRet" and open_win:
+                inwin += 1
+    rep.extra["reads_completed_while_a_reindex_batch_was_being_planned"] = inwin
+    if inwin < 100:
+        raise ToolError("threaded growth runs: only %d reads fell into a reindex window: vacuous" % inwin)
     return rep.finish()
 
 
